@@ -109,7 +109,10 @@
 use core::cell::Cell;
 use core::ptr;
 use core::sync::atomic::Ordering::*;
+#[cfg(not(arc_swap_verif))]
 use core::sync::atomic::{AtomicPtr, AtomicUsize};
+#[cfg(arc_swap_verif)]
+use crate::verif::{AtomicPtr, AtomicUsize};
 
 use super::Debt;
 use crate::RefCnt;
@@ -330,5 +333,28 @@ impl Slots {
             // someone provided the replacement *and* paid the debt and we need just one of them).
             Err(replacement)
         }
+    }
+}
+
+#[cfg(arc_swap_verif)]
+impl Local {
+    pub(super) fn verif_generation(&self) -> &Cell<usize> {
+        &self.generation
+    }
+}
+
+#[cfg(arc_swap_verif)]
+impl Slots {
+    pub(super) fn verif_info(&self, info: &mut crate::verif::NodeInfo) {
+        info.control = &self.control as *const _ as usize;
+        info.control_val = self.control.raw();
+        info.slot = &self.slot.0 as *const _ as usize;
+        info.slot_val = self.slot.0.raw();
+        info.active_addr = &self.active_addr as *const _ as usize;
+        info.active_addr_val = self.active_addr.raw();
+        info.space_offer = &self.space_offer as *const _ as usize;
+        info.space_offer_val = self.space_offer.raw() as usize;
+        info.handover = &self.handover.0 as *const _ as usize;
+        info.handover_val = self.handover.0.raw();
     }
 }
